@@ -1542,6 +1542,31 @@ def rule_cxx_headers(chk):
                               'hung behind the new node - every cell already chained there is lost, its particles disappear from all neighbour lists' % (compact(tgt), val, cs),
                    detail_ok=why)
     chk.floor('links written by HashTable::add', n, 1)
+    # ---- look-up: a bucket chains every cell whose coordinates hash to it; the entry handed out is the one whose three stored coordinates are the three asked for
+    # (all entries of a bucket share the hash key: matching on the key returns the first cell of the bucket for every colliding cell)
+    get = [f for f in ht[0].body if isinstance(f, ast.FunctionDef) and f.name == 'get']
+    if not get:
+        raise AnalysisError('HashTable::get vanished')
+    get = get[0]
+    M.set_parents(get)
+    gp = [a.arg for a in get.args.args if a.arg not in ('self', 'this')][:3]
+    hits = [r for r in ast.walk(get) if isinstance(r, ast.Return) and r.value is not None and not (isinstance(r.value, ast.Constant) and r.value.value is None)
+            and M.enclosing(r, (ast.While, ast.For)) is not None]
+    okg = bool(hits) and len(gp) == 3
+    for r in hits:
+        gi = M.enclosing(r, (ast.If,))
+        cur_ = compact(r.value)
+        parts = []
+        if gi is not None:
+            t_ = gi.test
+            def flat_(e_):
+                return [y for v_ in e_.values for y in flat_(v_)] if isinstance(e_, ast.BoolOp) and isinstance(e_.op, ast.And) else [e_]
+            parts = [compact(x) for x in flat_(t_)]
+        want_ = [('%s.c_%s==%s' % (cur_, ax, pn), '%s==%s.c_%s' % (pn, cur_, ax)) for ax, pn in zip('xyz', gp)]
+        okg = okg and gi is not None and all(any(w in parts for w in ws) for ws in want_)
+    chk.decide(okg, 'hash-chain-keeps-every-cell', 'HashTable::get:matches-the-cell', node=get, file=SH, func='HashTable::get',
+               detail_bad='the entry returned for cell (%s) is not required to store exactly these three coordinates: with two occupied cells in one bucket the particles of the '
+                          'later ones are never found (or another cell\'s particles are returned)' % ', '.join(gp), detail_ok='entry.c_x == i and entry.c_y == j and entry.c_z == k')
     # ---- Morton key: symbolic bits
     zo = X.load(REPO, ZO)
     gk = [f for f in zo.body if isinstance(f, ast.FunctionDef) and f.name == 'get_key']
